@@ -114,7 +114,7 @@ def _time_lattice_judge(ctx, cases, impl):
         if m and r.startswith('NS '):
             T = int(m.group(2))
             ns = int(r.split()[1])
-            if T != -1 and abs(T) <= 4 * 10**12 and ns != (T - margin) * 10**6:
+            if abs(T) <= 4 * 10**12 and ns != (T - margin) * 10**6:
                 ctx.v.violation('movetime', {'case': c, 'impl_ns': ns, 'expected_ns': (T - margin) * 10**6,
                                              'statement': 'movetime T allots T minus the margin'}, signature='movetime-%d' % T)
     # (a) mover's clock only
@@ -202,13 +202,28 @@ def _wallclock(ctx, n):
                 e.send('go depth 1')
                 e.read_until(lambda l: l.startswith('bestmove'), 20, start=n0)
                 d1 = time.time() - t
+            hist = None
+            if (i // 4) % 3 == 1:
+                # the deadline of THIS go is what counts, whatever kind of search the session ran before
+                hist = ['go infinite', 'stop'] if (i % 2 or fen in heavy) else ['go depth 2', 'go infinite', 'stop']      # (a depth-2 search of a `heavy` position runs for minutes)
+                for h in hist:
+                    n1 = len(e.lines)
+                    e.send(h)
+                    if h == 'go infinite':
+                        time.sleep(0.02)
+                    else:
+                        e.read_until(lambda l: l.startswith('bestmove'), 20, start=n1)
+                e.ready()
             n0 = len(e.lines)
             t = time.time()
             e.send(cmd)
-            idx, died = e.read_until(lambda l: l.startswith('bestmove'), 30, start=n0)
+            idx, died = e.read_until(lambda l: l.startswith('bestmove'), 12, start=n0)
             el = time.time() - t
+            if idx is None and not died:
+                e.send('stop')
+                e.read_until(lambda l: l.startswith('bestmove'), 10, start=n0)
             limit = max(allot, 0) / 1000.0 + max(0.2, 20 * d1)
-            samples.append({'cmd': cmd, 'allotted_ms': allot, 'elapsed_ms': round(el * 1000, 1), 'depth1_ms': round(d1 * 1000, 1)})
+            samples.append({'cmd': cmd, 'allotted_ms': allot, 'elapsed_ms': round(el * 1000, 1), 'depth1_ms': round(d1 * 1000, 1), 'earlier_in_the_session': hist})
             if idx is not None and el <= limit:
                 ok = True
                 break
@@ -217,6 +232,8 @@ def _wallclock(ctx, n):
             ctx.v.violation('deadline-overshoot', {'fen': fen, 'cmd': cmd, 'samples': samples[-3:],
                             'statement': 'bestmove no later than the allotted deadline plus the minimal depth-1 search (3 attempts)'},
                             signature='late-' + hashlib.sha1((fen + cmd).encode()).hexdigest()[:10])
+            if late >= 3:
+                break
     e.close()
     return samples
 
@@ -282,10 +299,17 @@ def pos_stream(ctx, name, games, synth, templates=1, spec_sample=None):
     """Runs the POS stream; returns dict with cases (fens), impl/model field lists and spec answers for a sample."""
     rc, out, err, stats = harness(['pos', name, str(games), str(synth), str(templates)])
     cases, impl = read_lines(RUN + '/%s.cases' % name), read_lines(RUN + '/%s.impl' % name)
-    model = run_oracle(cases)
+    # POSH <fen> <previous fen>: the same questions about <fen>, each asked right after the same question about a near twin
+    # (same placement, en-passant or castling field dropped); the expected answers are those of <fen> alone
+    hist_idx = [i for i, c in enumerate(cases) if c.startswith('POSH\t')]
+    model_all = run_oracle(['POS\t' + c.split('\t')[1] if c.startswith('POSH\t') else c for c in cases])
+    hist = [(cases[i].split('\t')[1], cases[i].split('\t')[2], impl[i].split('|'), model_all[i].split('|')) for i in hist_idx]
+    hs = set(hist_idx)
+    keep = [i for i in range(len(cases)) if i not in hs]
+    cases, impl, model = [cases[i] for i in keep], [impl[i] for i in keep], [model_all[i] for i in keep]
     fens = [c.split('\t', 1)[1] for c in cases]
     res = {'fens': fens, 'impl': [l.split('|') for l in impl], 'model': [l.split('|') for l in model], 'stats': stats,
-           'impl_raw': impl, 'model_raw': model}
+           'impl_raw': impl, 'model_raw': model, 'hist': hist}
     if spec_sample is None:
         spec_sample = len(cases)
     # originals are at even indices, their mirrors at odd ones; sample originals evenly
@@ -315,6 +339,36 @@ def field_mismatches(ps, fields):
                 out.append((i, f, a[k], b[k]))
                 break
     return out
+
+
+def history_dependence(ctx, ps, fields, tag):
+    """POSH lines: a question about a position asked right after the same question about a near twin must get the answer the
+    position gets on its own.  Reports a violation when the answer after the twin differs from the model's AND the engine asked
+    afresh agrees with the model (so the difference is the history, not the position)."""
+    n = 0
+    for (fen, prev, a, b) in ps.get('hist', []):
+        n += 1
+        if len(ctx.v.violations) >= 5:
+            break
+        if a[0] != 'OK' or b[0] != 'OK':
+            if a[0] != b[0]:
+                ctx.v.violation('answer-depends-on-the-previous-question', {'fen': fen, 'asked_right_after': prev, 'engine': a[0][:200], 'model': b[0][:200]},
+                                signature=sig(tag, 'hist', fen))
+            continue
+        for f in fields:
+            k = POS_FIELDS.index(f)
+            if a[k] != b[k]:
+                im, mo, sp = one_pos(fen)
+                fresh = im[k] if im[0] == 'OK' and len(im) > k else im[0]
+                if fresh == b[k]:
+                    ctx.v.violation('answer-depends-on-the-previous-question',
+                                    {'fen': fen, 'asked_right_after': prev, 'field': f, 'engine_after_the_twin': a[k][:300], 'engine_asked_afresh': fresh[:300], 'model': b[k][:300],
+                                     'how': 'in one process: ask for `%s` of `%s`, then of `%s` (verifh pos, POSH line)' % (f, prev, fen)},
+                                    signature=sig(tag, 'hist', f, fen))
+                else:
+                    ctx.corr_broken.append({'fen': fen, 'field': f, 'impl': a[k][:300], 'model': b[k][:300]})
+                break
+    return n
 
 
 def sig(*parts):
@@ -433,6 +487,7 @@ def c01(ctx):
                             signature=sig('c01', ps['fens'][i]))
         else:
             ctx.corr_broken.append({'fen': ps['fens'][i], 'field': f, 'impl': a[:300], 'model': b[:300]})
+    nhist = history_dependence(ctx, ps, ['snapshot', 'legal', 'count'], 'c01')
     scases, sbad, smoves = succ_stream(ctx, 's01')
     for (fen, mv, what, a, b) in sbad[:50]:
         if what in ('successor-legal-set', 'legal-set', 'status'):
@@ -448,8 +503,10 @@ def c01(ctx):
             'rule': 'positions from biased playouts, synthetic placements (up to 15 promoted pieces), castling/en-passant/pin templates and the 135 suite FENs; '
                     'plus the legal move set after EVERY legal move of ~600 base positions incl. corner-capture templates (SUCC stream); '
                     'plus positions with more than 60 legal moves: what perft 1..3 walks (against the model) and what `go depth 2..3` answers (WIDE stream); '
-                    'every position also as its colour mirror; non-trivial = distinct placements judged against the Spec oracle (rules of chess)',
-            'positions_vs_model': n, 'positions_vs_spec': len(ps['spec']), 'model_vs_impl_mismatches': len(mm), 'input_distribution': ps['stats'],
+                    'every position also as its colour mirror; positions with an en-passant square (and a sample of those with castling rights) also asked '
+                    'right after the same question about their twin without that field, in both orders (answers must not depend on the previous question); '
+                    'non-trivial = distinct placements judged against the Spec oracle (rules of chess)',
+            'positions_vs_model': n, 'asked_after_a_near_twin': nhist, 'positions_vs_spec': len(ps['spec']), 'model_vs_impl_mismatches': len(mm), 'input_distribution': ps['stats'],
             'traces_validated_against_impl': n,
             'samples': [{'fen': ps['fens'][i], 'engine_legal': ps['impl'][i][2] if ps['impl'][i][0] == 'OK' else ps['impl'][i][0]} for i in (0, n // 3, n - 2)]}
 
@@ -661,6 +718,7 @@ def c06(ctx):
             if len(ctx.v.violations) >= 5:
                 break
     mm = field_mismatches(ps, ['tactical', 'count', 'tcount', 'legal'])
+    history_dependence(ctx, ps, ['tactical', 'count', 'tcount', 'legal'], 'c06')
     # perft / tperft through the command interpreter against the model (model = Spec.paths by theorem; and see C01)
     npf, dfull, dsparse = (120, 2, 3) if ctx.quick else (600, 3, 4)
     cases, impl, model, model_raw, notes, stats = line_stream(ctx, 'perft', 'pf06', [npf, dfull, dsparse])
@@ -793,7 +851,7 @@ def c08(ctx):
 # C09  attack / check detection = geometry
 
 
-@check('C09', ['C09.v'])
+@check('C09', ['C09.v', 'C09src.v'])
 def c09(ctx):
     games, synth, nspec = pos_sizes(ctx)
     ps = pos_stream(ctx, 'p09', games, synth, 1, nspec * 2)
@@ -812,6 +870,7 @@ def c09(ctx):
             if len(ctx.v.violations) >= 5:
                 break
     mm = field_mismatches(ps, ['in_check', 'attack_map'])
+    history_dependence(ctx, ps, ['in_check', 'attack_map', 'legal'], 'c09')      # legal: castling out of / through check rests on the same attack test
     # the quantifier's own enumeration: one attacker, optional single blocker, every pair of squares
     mode = 'full'
     rc, out, err, st2 = harness(['attack', 'a09', mode], timeout=3000)
@@ -875,6 +934,7 @@ def c15(ctx):
             if len(ctx.v.violations) >= 5:
                 break
     mm = field_mismatches(ps, ['eval_full', 'eval_material'])
+    history_dependence(ctx, ps, ['eval_full', 'eval_material'], 'c15')
     for (i, f, a, b) in mm[:20]:
         if not ctx.v.violations:
             ctx.corr_broken.append({'fen': ps['fens'][i], 'field': f, 'impl': a, 'model': b})
@@ -945,7 +1005,7 @@ def refmm_parallel(items, limit=4000000):
 
 @check('C04', ['C04.v', 'C04chess.v'])
 def c04(ctx):
-    n = 1000 if ctx.quick else 6000
+    n = 1000 if ctx.quick else 4000
     pos = search_batch(ctx, n)
     compared = deviations = sens_skipped = 0
     nontrivial = set()
@@ -1017,10 +1077,45 @@ def c04(ctx):
                                 'model_scores': [i['score'] for i in p['model']['iters']]}, signature=sig('c04it', p['fen'], p['depth']))
             if len(ctx.v.violations) >= 5:
                 break
-    return {'evaluations': len(pos), 'distinct_nontrivial': len(nontrivial),
+    # the stand-pat value of quiescence nodes, asked directly: LazyEvaluate under a lattice of windows against the model's lazy_eval
+    # (compared after clamping into the window: quiescence is fail-hard); a difference is judged by the property itself: where full
+    # and cheap evaluation are within the lazy margin, the windowed value must act like the engine's own full evaluation
+    lz_cases, lz_impl, _, lz_model, _, lz_stats = line_stream(ctx, 'lazy', 'lz04', [300 if ctx.quick else 2500])
+    lazy_diff = 0
+    for c, a, b in zip(lz_cases, lz_impl, lz_model):
+        _, lfen, ld, al, be = c.split('\t')
+        al, be = int(al), int(be)
+        af, bf = a.split('|'), b.split('|')
+        clamp = lambda v: max(al, min(be, v))
+        if af[0] == 'OK' and len(af) > 4 and af[4] != 'same' and len(ctx.v.violations) < 5:
+            ctx.v.violation('evaluation-changes-the-position-it-evaluates', {'fen': lfen, 'depth': int(ld), 'alpha': al, 'beta': be, 'observation': af[4][:300],
+                            'how': 'LazyEvaluate(pos, %s, %d, %d) on the generator\'s top position (what quiescence does at every node), snapshot before and after' % (ld, al, be)},
+                            signature=sig('c04lzpos', lfen))
+            continue
+        if af[0] == 'OK' and bf[0] == 'OK' and clamp(int(af[1])) == clamp(int(bf[1])):
+            continue
+        if af[0] != 'OK' and af[0] == bf[0]:
+            continue
+        lazy_diff += 1
+        if len(ctx.v.violations) >= 5:
+            continue
+        if af[0] != 'OK':
+            ctx.v.violation('evaluation-crashes', {'fen': lfen, 'alpha': al, 'beta': be, 'engine': a[:200], 'model': b[:200]}, signature=sig('c04lz', lfen, al, be))
+        elif abs(int(af[2]) - int(af[3])) <= 320 and clamp(int(af[1])) != clamp(int(af[2])):
+            ctx.v.violation('stand-pat-value-under-a-window-differs-from-the-static-evaluation',
+                            {'fen': lfen, 'depth': int(ld), 'alpha': al, 'beta': be, 'windowed_evaluation': int(af[1]), 'full_evaluation': int(af[2]), 'material_part': int(af[3]),
+                             'model_windowed_evaluation': bf[1] if len(bf) > 1 else b[:100],
+                             'how': 'LazyEvaluate(pos, %s, %d, %d) in quiescence vs Evaluate(pos, %s): full and cheap evaluation are within the lazy margin, so the '
+                                    'node is not an admitted deviation, yet the fail-hard search sees another value' % (ld, al, be, ld)},
+                            signature=sig('c04lz', lfen, al, be))
+        else:
+            ctx.corr_broken.append({'case': c, 'impl': a, 'model': b})
+    return {'evaluations': len(pos) + len(lz_cases), 'distinct_nontrivial': len(nontrivial), 'windowed_evaluations': len(lz_cases), 'windowed_evaluation_differences': lazy_diff,
+            'windowed_evaluation_distribution': lz_stats,
             'rule': 'positions (sparse synthetic, playout, corpus) with `go depth d` (d by material: up to 3-4 with few men, 1-2 on full boards) on the real engine; '
                     'every completed iteration score compared with the model search (iterative deepening incl. early exits) and, on disagreement, with plain minimax of the full tree; '
-                    'non-trivial = distinct (position, iteration) pairs compared',
+                    'plus LazyEvaluate under ~38 windows per position (around its material score, its full score, zero, the lazy margin) on stalemate/mate templates, '
+                    'templates, playout and synthetic positions against the model lazy_eval (LAZY stream); non-trivial = distinct (position, iteration) pairs compared',
             'iteration_scores_compared': compared, 'admitted_lazy_deviations': sens_skipped, 'traces_validated_against_impl': compared,
             'model_too_slow_skipped': sum(1 for p in pos if p.get('skipped')),
             'depth_histogram': {str(d): sum(1 for p in pos if p['depth'] == d) for d in (1, 2, 3, 4)},
@@ -1045,9 +1140,45 @@ for _p in ('C03', 'C04', 'C05', 'C10', 'C14'):
     REPLAYS[_p] = replay_search
 
 
+def terminal_nodes_under_windows(ctx):
+    """C05, last sentence, at the place where the search applies it on the horizon: LazyEvaluate of a position without legal moves is
+    the mate score (in check) or the draw score (not in check) whenever the window does not let the lazy exit answer first, and the
+    position is left as it was (quiescence goes on to generate captures from it)."""
+    lz_cases, lz_impl, _, lz_model, _, lz_stats = line_stream(ctx, 'lazy', 'lz05', [150 if ctx.quick else 1200])
+    nterm = 0
+    for c, a, b in zip(lz_cases, lz_impl, lz_model):
+        _, lfen, ld, al, be = c.split('\t')
+        al, be, ld = int(al), int(be), int(ld)
+        af, bf = a.split('|'), b.split('|')
+        if af[0] != 'OK' or len(af) < 6 or af[5] == '0':
+            continue
+        nterm += 1
+        if len(ctx.v.violations) >= 5:
+            break
+        v, ms = int(af[1]), int(af[3])
+        if af[4] != 'same':
+            ctx.v.violation('evaluation-changes-a-position-without-legal-moves', {'fen': lfen, 'depth': ld, 'alpha': al, 'beta': be, 'observation': af[4][:300],
+                            'how': 'LazyEvaluate on the generator\'s top position (every horizon/quiescence node), snapshot before and after; then e.g. `position fen %s`, `eval`, `go depth 2`' % lfen},
+                            signature=sig('c05lzpos', lfen))
+            continue
+        clamp = lambda x: max(al, min(be, x))
+        if af[5] == '2':
+            want = -100000 + ld         # LostScore + depth: mate tests come before the lazy exit
+        elif ms > be + 320 or ms < al - 320:
+            continue                    # the lazy exit answers with the material score: the deviation C04 admits
+        else:
+            want = 0
+        if clamp(v) != clamp(want):
+            ctx.v.violation('position-without-legal-moves-not-scored-as-mate-or-draw', {'fen': lfen, 'in_check': af[5] == '2', 'depth': ld, 'alpha': al, 'beta': be,
+                            'engine_value': v, 'expected': want, 'material_part': ms, 'model_value': bf[1] if len(bf) > 1 else b[:80],
+                            'how': 'LazyEvaluate(pos, %d, %d, %d): the stand-pat value of a quiescence node' % (ld, al, be)}, signature=sig('c05lz', lfen, al, be))
+    return {'terminal_positions_x_windows': nterm, 'distribution': lz_stats}
+
+
 @check('C05', ['C05.v', 'C05mate.v', 'C05src.v'])
 def c05(ctx):
     n = 260 if ctx.quick else 800
+    lz = terminal_nodes_under_windows(ctx)
     allpos = S.positions(ctx, n, extra_seed=5)
     pos = [p for p in allpos if p['men'] <= 7]
     maxd = 3 if ctx.quick else 4
@@ -1209,8 +1340,9 @@ def c05(ctx):
     return {'evaluations': checked + len(ps['fens']), 'distinct_nontrivial': len(nontrivial),
             'rule': 'sparse positions (<= 7 men) solved by an AND/OR mate search over legal moves to %d plies; `go depth %d` must report `mate N` with exactly the '
                     'shortest distance (sign for the losing side) when a forced mate within the depth exists and the root has more than one move, and an announced mate must exist; '
-                    'terminal roots; |eval| below the mate band and mate/stalemate classification on the POS stream; non-trivial = distinct positions with a forced mate' % (maxd, maxd),
-            'searched': checked, 'positions_with_forced_mate': mates_found, 'max_abs_eval_seen': mx, 'terminal_roots': len(tjobs),
+                    'terminal roots; |eval| below the mate band and mate/stalemate classification on the POS stream; positions without legal moves (incl. stalemates '
+                    'less than the lazy margin behind) under ~38 evaluation windows each: mate / draw value and position left unchanged (LAZY stream); non-trivial = distinct positions with a forced mate' % (maxd, maxd),
+            'searched': checked, 'positions_with_forced_mate': mates_found, 'max_abs_eval_seen': mx, 'terminal_roots': len(tjobs), 'terminal_nodes_under_windows': lz,
             'traces_validated_against_impl': checked,
             'samples': [{'fen': pos[i]['fen'], 'solver_plies': solved.get(i)} for i in list(solved)[:3]]}
 
@@ -1242,12 +1374,23 @@ def c03(ctx):
     for go, stop in (('go depth 3', None), ('go movetime 100', None), ('go infinite', 0.05), ('go wtime 1000 btime 1000', None)):
         jobs.append(S.Job(wrapfen, go, stop_after=stop, tag={'fen': wrapfen, 'src': 'plywrap'}))
     S.run_jobs(jobs, workers=8, per_job_timeout=60)
+    # every small budget, one by one (a budget that collides with an internal marker or margin must still be answered): movetime
+    # -3..130 ms, both clocks 0..120 ms, depth 1..45 with a 300 ms budget, on the start position and on an endgame with black to move
+    sweep = []
+    for sfen in ('startpos', '8/5k2/8/3p4/8/2P5/5K2/8 b - - 0 1'):
+        tg = {'fen': sfen, 'src': 'budget-sweep'}
+        step = 1 if (ctx.quick and sfen == 'startpos') or not ctx.quick else 7
+        sweep += [S.Job(sfen, 'go movetime %d' % t, tag=tg) for t in range(-3, 131, step)]
+        sweep += [S.Job(sfen, 'go wtime %d btime %d' % (t, t), tag=tg) for t in range(0, 121, 3 * step)]
+        sweep += [S.Job(sfen, 'go depth %d movetime 300' % t, tag=tg) for t in range(1, 46, 3 * step)]       # (depth < 1 is a rejected command: no search, no answer)
+    S.run_jobs(sweep, workers=12, per_job_timeout=20)
+    jobs += sweep
     legal_req = []
     for j in jobs:
         parsed = uci.parse_search_output(j.lines or [])
         j.parsed = parsed
         if j.died or j.timeout:
-            crash_violation(ctx, {'fen': j.fen, 'job': j}, 'no bestmove within 60 s')
+            crash_violation(ctx, {'fen': j.fen, 'job': j}, 'no bestmove within 60 s' if j not in sweep else 'no bestmove within 20 s')
             continue
         if len(parsed['bestmove']) != 1:
             ctx.v.violation('not-exactly-one-bestmove', {'fen': j.fen, 'go': j.go, 'stop_after_s': j.stop_after, 'bestmove_lines': parsed['bestmove']},
@@ -1293,14 +1436,95 @@ def c03(ctx):
     wide = wide_search(ctx)
     return {'evaluations': len(jobs) + multi * 3 + wide['searches'] + 4, 'distinct_nontrivial': len(set((j.fen, j.go, j.stop_after) for j in jobs)), 'wide': wide,
             'rule': 'positions with at least one legal move (and positions with 61..218 legal moves: `wide`) x go forms (depth, movetime incl. 1 ms and negative, clock forms incl. 1 ms budgets, infinite/bare followed by stop '
-                    'after 0-50 ms, three consecutive go commands); observable = number of bestmove lines per go and legality of the move by the model generator; '
+                    'after 0-50 ms, three consecutive go commands; every movetime -3..130 ms, clock 0..120 ms and depth 1..45 one by one); observable = number of bestmove lines per go and legality of the move by the model generator; '
                     'non-trivial = distinct (position, go form, stop delay)',
             'go_forms': kinds, 'traces_validated_against_impl': len(jobs),
             'samples': [{'fen': j.fen, 'go': j.go, 'stop_after_s': j.stop_after, 'bestmove': j.parsed['bestmove']} for j in jobs[:3]]}
 
 
+def output_leaves_in_whole_lines(ctx, tag):
+    """Two threads print (search: info/bestmove, commands: readyok, eval, perft, ...).  Their lines can be ordered but never mixed only
+    if every line leaves the process in ONE write.  The engine runs under strace; every write to stdout must be a sequence of whole
+    lines.  When a line is written in pieces, `isready` is streamed during searches to exhibit a torn line."""
+    import subprocess, select
+    tr = RUN + '/%s.strace' % tag
+    try:
+        pr = subprocess.Popen(['strace', '-f', '-e', 'trace=write', '-s', '3000', '-o', tr, uci.ENGINE], stdin=subprocess.PIPE, stdout=subprocess.PIPE, stderr=subprocess.DEVNULL, bufsize=0)
+    except OSError:
+        return {'writes_seen': 0, 'note': 'strace not available'}
+
+    def send(t):
+        pr.stdin.write(t.encode())
+        pr.stdin.flush()
+
+    def until(word, timeout):
+        end = time.time() + timeout
+        buf = b''
+        while time.time() < end:
+            r, _, _ = select.select([pr.stdout], [], [], 0.2)
+            if r:
+                d = os.read(pr.stdout.fileno(), 1 << 16)
+                if not d:
+                    return False
+                buf += d
+                if any(l.startswith(word) for l in buf.decode('latin-1').split('\n')):
+                    return True
+        return False
+    send('uci\n')
+    until('uciok', 10)
+    for cmds, timeout in ((['position startpos', 'go depth 4'], 60), (['setoption name currmoveLogInterval value 10', 'position fen r3k2r/p1ppqpb1/bn2pnp1/3PN3/1p2P3/2N2Q1p/PPPBBPPP/R3K2R w KQkq - 0 1', 'go movetime 450'], 30),
+                          (['position fen 8/2p5/3p4/KP5r/1R3p1k/8/4P1P1/8 w - - 0 1', 'go depth 3'], 60), (['position fen 7k/5Q2/6K1/8/8/8/8/8 b - - 0 1', 'go depth 2'], 20)):
+        send('\n'.join(cmds) + '\n')
+        until('bestmove', timeout)
+    send('eval\nperft 1\nisready\n')
+    until('readyok', 10)
+    send('quit\n')
+    try:
+        pr.wait(10)
+    except subprocess.TimeoutExpired:
+        pr.kill()
+    pieces, nwrites = [], 0
+    for l in read_lines(tr):
+        m = re.match(r'^\d+\s+write\(1, "(.*)"(\.\.\.)?, \d+\)', l)
+        if not m:
+            continue
+        nwrites += 1
+        if not m.group(1).endswith('\\n') and not m.group(2):
+            pieces.append(m.group(1)[:200])
+    if pieces:
+        # exhibit the torn line: pings stream in while searches print
+        ok = [re.compile(r'^readyok$'), uci.INFO_DEPTH, uci.INFO_SCORE, re.compile(r'^info currmove '), uci.BESTMOVE]
+        torn = None
+        e = uci.Engine()
+        e.ready()
+        positions = ['position startpos', 'position startpos moves e2e4 e7e5 g1f3 b8c6 f1b5 a7a6', 'position fen r3k2r/p1ppqpb1/bn2pnp1/3PN3/1p2P3/2N2Q1p/PPPBBPPP/R3K2R w KQkq - 0 1',
+                     'position fen 8/2p5/3p4/KP5r/1R3p1k/8/4P1P1/8 w - - 0 1']
+        ping = 'isready\n' * 200
+        t_end = time.time() + (40 if ctx.quick else 240)
+        rnd = 0
+        while torn is None and time.time() < t_end:
+            n0 = len(e.lines)
+            e.send((ping + positions[rnd % 4] + '\n' + ping + 'go depth 5').encode())
+            idx, died = e.read_until(lambda l: 'bestmove' in l, 60, start=n0)
+            e.ready()
+            for l in e.lines[n0:]:
+                if not any(r.match(l) for r in ok):
+                    torn = {'round': rnd, 'position': positions[rnd % 4], 'line': l[:300]}
+                    break
+            rnd += 1
+        e.close()
+        d = {'pieces_written_without_line_end': pieces[:5], 'how': 'strace -f -e trace=write on the engine: a line of output leaves the process in more than one write, '
+             'so a line of the other thread (e.g. readyok) can land inside it'}
+        if torn:
+            d['torn_line_observed'] = torn
+            d['how'] += '; exhibited by streaming `isready` while `go depth 5` runs (round %d)' % torn['round']
+        ctx.v.violation('output-line-written-in-pieces', d, signature=sig(tag, 'pieces', pieces[0][:40]), no_input=torn is None)
+    return {'writes_seen': nwrites, 'writes_not_ending_a_line': len(pieces)}
+
+
 @check('C10', ['C10.v', 'C03chess.v'])
 def c10(ctx):
+    atom = output_leaves_in_whole_lines(ctx, 'c10')
     n = 70 if ctx.quick else 2000
     pos = [p for p in S.positions(ctx, n, extra_seed=10) if p['nlegal'] > 0]
     jobs = []
@@ -1360,8 +1584,9 @@ def c10(ctx):
     return {'evaluations': npv + ncurr, 'distinct_nontrivial': len(set((m[0].fen, ' '.join(map(str, m[1]))) for m in meta)),
             'rule': 'every `info ... pv` line of real searches (depth-limited with low currmove logging interval, and infinite+stop after 250-650 ms so that '
                     'mid-iteration PV lines are printed) replayed move by move on the model generator; bestmove = head of the last PV line; info-line grammar by regex; '
-                    'currmove lines name a legal root move; non-trivial = distinct (position, line)',
-            'pv_lines': npv, 'currmove_lines': ncurr, 'searches': len(jobs), 'traces_validated_against_impl': npv + ncurr,
+                    'currmove lines name a legal root move; every write to stdout (strace) is a sequence of whole lines, so concurrent command output cannot land inside an info line; '
+                    'non-trivial = distinct (position, line)',
+            'pv_lines': npv, 'currmove_lines': ncurr, 'searches': len(jobs), 'traces_validated_against_impl': npv + ncurr, 'output_in_whole_lines': atom,
             'samples': [{'fen': m[0].fen, 'line': m[1]} for m in meta[:3]]}
 
 
@@ -1426,6 +1651,13 @@ def c14(ctx):
                 hist += ['isready', 'go movetime 20', ('wait',)]
             else:
                 hist += ['position startpos moves e2e4 e7e5', 'go depth 3', ('wait',)]
+        if pi % 3 == 1:
+            # the probe's own position command applied before, then a position command that is rejected or fails half way through its move list
+            hist += [S.pos_cmd(p['fen']), rnd.choice(['position startpos moves e2e4 e7e5 xx', 'position startpos moves e2e4  e7e5', 'position fen 8/8/8 w - - 0 1',
+                                                     'position startpos moves d2d4 d7d5 c2c', 'position fen rnbqkbnr/pppppppp/8/8/8/8/PPPPPPPP/RNBQKBNR w KQkq - 0 1 moves e2e4 e7',
+                                                     'position startpos moves g1f3 g8f6 f3g1 i9i8', 'position'])]
+            if rnd.random() < 0.5:
+                hist += ['isready', 'eval']
         jobs_a.append(S.Job(p['fen'], 'go depth %d' % d))
         jobs_b.append(S.Job(p['fen'], 'go depth %d' % d, history=hist))
     S.run_jobs(jobs_a, workers=8, fresh_process_each=True)
@@ -1451,7 +1683,7 @@ def c14(ctx):
                             'probe': 'position startpos moves e2e4; ' + f[2], 'observation': f[0], 'how': 'verifh rego'}, signature=sig('c14rego', f[1], f[2]))
     return {'evaluations': len(pos) * 2 + 6, 'distinct_nontrivial': len(pos),
             'rule': 'probe (`position P`, `go depth d`) in a fresh process and after a random history (other positions, completed and stopped searches, perft/eval, '
-                    'setoption with different logging intervals, isready); compared: every `info depth` line (score, nodes, pv), the final summary and bestmove, with time/nps removed; '
+                    'setoption with different logging intervals, isready, the probe position followed by a position command that fails half way); compared: every `info depth` line (score, nodes, pv), the final summary and bestmove, with time/nps removed; '
                     'non-trivial = distinct probes',
             'probes': len(pos), 'differences': diffs, 'traces_validated_against_impl': len(pos),
             'samples': [{'fen': pos[0]['fen'], 'history': [h if isinstance(h, str) else list(h) for h in jobs_b[0].history], 'output': strip_volatile(jobs_b[0].lines or [])}] if pos else []}
@@ -1853,6 +2085,15 @@ def c18(ctx):
     for f in CAPTURE_HEAVY:
         for go in ['go depth 1', 'go depth 2', 'go movetime 300']:
             jobs.append(S.Job(f, go, tag='captures'))
+    # a game played to its end and searched there (root without legal moves: mate, stalemate), then the next game in the same process
+    ends = ['position fen 7k/5Q2/6K1/8/8/8/8/8 b - - 0 1', 'position startpos moves f2f3 e7e5 g2g4 d8h4', 'position fen 7k/6Q1/6K1/8/8/8/8/8 b - - 0 1',
+            'position fen k7/P7/K7/8/8/8/8/8 b - - 0 1']
+    nxt = ['rnbqkbnr/pppppppp/8/8/8/8/PPPPPPPP/RNBQKBNR w KQkq - 0 1', 'r3k2r/p1ppqpb1/bn2pnp1/3PN3/1p2P3/2N2Q1p/PPPBBPPP/R3K2R w KQkq - 0 1', FORTRESSES[0], CAPTURE_HEAVY[0]]
+    k = 0
+    for e_ in ends:
+        for g_ in (['go depth 3', ('wait',)], ['go movetime 40', ('wait',)], ['go infinite', 'stop', ('wait',)]):
+            jobs.append(S.Job(nxt[k % len(nxt)], ['go depth 2', 'go movetime 100', 'go depth 3'][k % 3], history=[e_] + g_, tag='after-finished-game'))
+            k += 1
     S.run_jobs(jobs, workers=8, per_job_timeout=120)
     # long games: hundreds of plies through `position startpos moves ...`, then search and perft
     rc, out, err, st = harness(['longgames', str(6 if ctx.quick else 120)], timeout=3000)
@@ -1884,9 +2125,9 @@ def c18(ctx):
     return {'evaluations': len(jobs) + len(long_rows) + wide['commands'] + wide['searches'], 'wide': wide,
             'distinct_nontrivial': len(set((j.fen, j.go) for j in jobs)) + len(long_rows),
             'rule': 'stress inputs: FEN move numbers 1..15933 (both sides) with go/perft; blocked positions with go depth 38..100000, clock-based and bare go (iteration 40 is reached '
-                    'in milliseconds); capture-heavy positions; games of several hundred plies through `position startpos moves ...` followed by go and perft; observable = process '
+                    'in milliseconds); capture-heavy positions; a search on a finished game (mate/stalemate root) followed by the next game in the same process; games of several hundred plies through `position startpos moves ...` followed by go and perft; observable = process '
                     'alive, exactly one legal bestmove; non-trivial = distinct inputs',
-            'deepest_iteration_reported': deepest, 'long_games': len(long_rows), 'classes': {t: sum(1 for j in jobs if j.tag == t) for t in ('movenumber', 'fortress', 'captures')},
+            'deepest_iteration_reported': deepest, 'long_games': len(long_rows), 'classes': {t: sum(1 for j in jobs if j.tag == t) for t in ('movenumber', 'fortress', 'captures', 'after-finished-game')},
             'traces_validated_against_impl': len(jobs) + len(long_rows),
             'samples': [{'fen': j.fen, 'go': j.go, 'last': (j.lines or [])[-1:]} for j in jobs[:2] + jobs[-2:]]}
 
@@ -1917,7 +2158,7 @@ def c19(ctx):
             pre.append('go depth 2')
         elif state == 'perft':
             pre.append('perft 3')
-        end = rng.choice(['quit', 'eof'])
+        end = rng.choice(['quit', 'eof', 'quit', 'eof', 'quit-crlf'])          # quit-crlf: every line ends with CR LF, as GUIs on Windows send them
         delay = rng.choice([0.0, 0.0, 0.05, 0.3]) if state in ('searching', 'after-search', 'terminal-root-go', 'stopped-search', 'isready-then') else 0.0
         trials.append((state, pre, end, delay))
     # `quit` behind stop sequences while the search thread is held at a phase (in-process, sync hooks): the command thread must get
@@ -1952,6 +2193,9 @@ def c19(ctx):
         trials.append(('one-ply-search-that-runs-for-minutes', ['position fen qqqqkqqq/qqqqqqqq/8/8/8/8/QQQQQQQQ/QQQQKQQQ w - - 0 1', 'go depth 1', ('sleep', 0.3)], end, 0.0))
         trials.append(('huge-line-while-searching', ['position startpos', 'go infinite', 'x' * 2000000, 'isready'], end, 0.0))
     trials.append(('huge-line', ['position startpos moves ' + ' '.join(['g1f3 g8f6 f3g1 f6g8'] * 150000)], 'quit', 0.0))
+    trials.append(('rest', [], 'quit-crlf', 0.0))
+    trials.append(('searching', ['position startpos', 'go infinite'], 'quit-crlf', 0.05))
+    trials.append(('after-search', ['position startpos moves e2e4', 'go depth 2'], 'quit-crlf', 0.3))
     bad = 0
     samples = []
     for state, pre, end, delay in trials:
@@ -1971,13 +2215,13 @@ def c19(ctx):
                             p.stdin.flush()
                             time.sleep(l[1])
                         else:
-                            p.stdin.write((l + '\n').encode())
+                            p.stdin.write((l + ('\r\n' if end == 'quit-crlf' else '\n')).encode())
                     p.stdin.flush()
                     if delay:
                         time.sleep(delay)
                     tbox[0] = time.time()
-                    if end == 'quit':
-                        p.stdin.write(b'quit\n')
+                    if end in ('quit', 'quit-crlf'):
+                        p.stdin.write(b'quit\n' if end == 'quit' else b'quit\r\n')
                         p.stdin.flush()
                     else:
                         p.stdin.close()
@@ -2003,10 +2247,10 @@ def c19(ctx):
         if rc is None or rc != 0:
             bad += 1
             ctx.v.violation('engine-does-not-terminate', {'state': state, 'script': pre, 'ended_by': end, 'exit_code': rc, 'waited_s': round(el, 2),
-                            'how': 'feed the script, then %s' % ('send quit' if end == 'quit' else 'close stdin')}, signature=sig('c19', state, end))
+                            'how': 'feed the script, then %s' % ('send quit' if end == 'quit' else 'send quit, every line ended by CR LF' if end == 'quit-crlf' else 'close stdin')}, signature=sig('c19', state, end))
     ctx.assumptions.append('OS pipe semantics and process teardown are observed, not modelled (label: partial)')
     return {'evaluations': len(trials) + held, 'distinct_nontrivial': len(set((s, e) for s, _, e, _ in trials)), 'held_stop_quit_schedules': held,
-            'rule': 'child processes in the states {at rest, position set, searching, right after go, after a finished search, after perft} ended by `quit` or by closing stdin; '
+            'rule': 'child processes in the states {at rest, position set, searching, right after go, after a finished search, after perft} ended by `quit` (lines ended by LF or by CR LF) or by closing stdin; '
                     'must exit with status 0 within 3 s; non-trivial = distinct (state, ending)',
             'traces_validated_against_impl': len(trials), 'samples': samples[:4], 'partial': ['process teardown is observed only']}
 
